@@ -270,3 +270,14 @@ def test_mask_reaches_configs_nested_in_containers():
     assert "TOPSECRET" not in repr(cfg.to_tree(sensitive_mask="*"))
     assert b"TOPSECRET" not in cfg.dumps("json", sensitive_mask="XX")
     assert "TOPSECRET" in repr(cfg.to_tree())
+
+
+@pytest.mark.xfail(reason="known finding C15: reference paths of configurations inside nested containers", strict=True)
+def test_known_nested_container_paths():
+    item = cc.Schema()
+    item.c = cc.IntField(max=9)
+    s = cc.Schema()
+    s.ll = cc.ListField(cc.ListField(item))
+    with pytest.raises(cc.ValidationError) as err:
+        s().load_tree({"ll": [[{"c": 1}], [{"c": 1}, {"c": 10}]]})
+    assert err.value.ref_path == "ll[1][1].c"
